@@ -273,7 +273,8 @@ RefLists == {<<a>> : a \in ConBoxes} \cup {<<a, b>> : a \in ConBoxes, b \in ConB
 SurroundCases ==
     {[fam |-> "contain", mode |-> "surround", refs |-> rl, refkinds |-> rk, kind |-> k, margin |-> m,
       exp |-> IF m = <<>> THEN UnionAll(rl) ELSE Grow(UnionAll(rl), m)] :
-        rl \in RefLists, rk \in {"rect", "ellipse", "line", "g", "mixed"}, k \in {"rect", "circle", "ellipse"}, m \in Margins}
+        \* ("nested": every listed element is itself a surround rect around a shape with that box)
+        rl \in RefLists, rk \in {"rect", "ellipse", "line", "g", "mixed", "nested"}, k \in {"rect", "circle", "ellipse"}, m \in Margins}
 
 \* inside: rect in rects (exact), rect in one ellipse/circle, circle/ellipse in one rect
 \* (three and four listed boxes: the common area is that of ALL of them, whichever
